@@ -467,7 +467,7 @@ class ValidatedData:
         )
         if self.is_valid:
             out += f"Data is valid. {rules_tested_msg}\n"
-            return
+            return out
 
         out += (
             f"{self.num_failures} rule{'s' if self.num_failures > 1 else ''} "
